@@ -817,6 +817,13 @@ def run_systems(ctx, systems, batch=6, spec=False):
                         continue
                     n = len(s["residues"])
                     for fi, fr in enumerate(r["frames"]):
+                        if "inconsistent" in fr:
+                            ctx.fail("md.kabsch_sander returns a sparse matrix whose (indptr, indices, data) arrays do not fit "
+                                     "together when read after the call has returned", case_of(s, ci),
+                                     observed=dict(fr, frame=fi, n_frames=len(r["frames"])),
+                                     expected="per frame a self-contained n_residues x n_residues matrix (coq: MD.Hbond.KsWrap.csr_indptr)",
+                                     tags={"fn": "kabsch_sander", "kind": "inconsistent-matrix"})
+                            continue
                         rows = [[] for _ in range(n)]
                         weird = [b for b in fr["bonds"] if not (0 <= b[0] < n and 0 <= b[1] < n) or b[2] != b[2]
                                  or abs(b[2]) > 1e6]
